@@ -115,6 +115,7 @@ type execResult struct {
 
 func runSchedule(_ []geojson.Object, sc c16Scenario, prefix []int8, parent []spoint) execResult {
 	pool := c16Fresh(sc) // fresh objects for every execution
+	verifrt.Reset()      // and empty shim pools
 	s := &sched{prefix: prefix, parent: parent, allDone: make(chan struct{}, 1)}
 	for range sc.Calls {
 		s.threads = append(s.threads, &sthread{resume: make(chan struct{})})
@@ -203,6 +204,7 @@ func c16Worker(args []string) {
 		// solo results on a fresh pool
 		solo := make([]string, len(sc.Calls))
 		for i, c := range sc.Calls {
+			verifrt.Reset()
 			solo[i] = c.run(c16Fresh(sc))
 		}
 		o.states++
@@ -211,6 +213,7 @@ func c16Worker(args []string) {
 		for _, c := range sc.Calls {
 			np := 0
 			pl := c16Fresh(sc)
+			verifrt.Reset()
 			verifrt.Hook = func(int) { np++ }
 			verifrt.SchedOn = true
 			c.run(pl)
